@@ -631,6 +631,10 @@ class ArrInterp(ResultInterp):
         if name in ("numpy.copyto", "numpy.put", "numpy.place", "numpy.putmask") and args and isinstance(args[0], AArr):
             self.root.stores.append((node, args[0], name, None, args[0].is_fresh()))
             return None
+        if name == "numpy.isin" and args and isinstance(args[0], AArr) and kwargs.get("assume_unique") is True:
+            # assume_unique promises that BOTH inputs hold no value twice; a label array does (every voxel of an
+            # instance, the background): numpy's sort-based path then reports elements that are not in the list
+            return AMask(args[0], "other", "isin(..., assume_unique=True) on an array whose values repeat")
         if name == "numpy.isin" and args and isinstance(args[0], AArr):
             key = args[1]
             if isinstance(key, LabelKeys):
